@@ -263,6 +263,8 @@ ovni_proc_init(int app, const char *loom, int pid)
 			die("pid %d has finished, cannot init again", pid);
 	}
 
+	OVNI_VERIF_YIELD("proc_init_won");
+
 	if (strlen(loom) >= OVNI_MAX_HOSTNAME)
 		die("loom name too long: %s", loom);
 
@@ -424,6 +426,8 @@ ovni_proc_fini(void)
 
 	if (!was_ready)
 		die("process not ready");
+
+	OVNI_VERIF_YIELD("proc_fini_won");
 
 	if (rproc.move_to_final) {
 		try_clean_dir(rproc.procdir);
@@ -594,6 +598,7 @@ ovni_thread_init(pid_t tid)
 		die("malloc failed:");
 
 	create_thread_dir(tid);
+	OVNI_VERIF_YIELD("thread_dir_created");
 	create_trace_stream();
 	write_stream_header();
 
